@@ -26,6 +26,19 @@ CHECKS = {
         technique="TLC model checking of the sync model with a spec-level equivalence of the sync/async/pure step variants; every edge executed on the three real engines in lock step and compared pairwise",
         text="For every reachable state x relevant event x guard valuation of families T/H/D/R/S (send_events batches included for R) TLC evaluates on the Impl layer whether the three engine variants of the step agree; every explored edge is then executed on SyncInterpreter, Interpreter (at quiescence) and the pure API along the same path and configuration, context, status, output and ordered action lists (with triggering events) are compared; purity of the pure API is observed on every call. Differences that are recorded defects are matched by narrow signatures (known_findings.json).",
         design="DESIGN.md section 8 C05"),
+    "C06": dict(
+        technique="TLC model checking over a family of guard expressions (depth <=2, every operand spelling, stateIn, parameterised, missing atoms, guard/cond key, choose branches) with valuations over true/false/raise; edge replay + trace validation; the guard the library parsed is compared by TLC with the guard the raw config denotes",
+        text="Prop C06 (spec/SCProps.tla): every observed selection equals the first candidate whose guard is true under the plain boolean meaning (raise = false) at the nearest level; the guard record the library attached to each transition equals the one computed independently from the raw config (cond = guard, all spellings); a raising guard completes the step undisturbed; a named but unimplemented first candidate is reported as ImplementationMissingError and decides nothing. Guards inside choose branches are modelled on the Impl layer and bound by edge replay.",
+        design="DESIGN.md section 8 C06"),
+    "C12": dict(
+        technique="TLC-explored crash points (every reachable state) x continuations (every edge); snapshot -> from_snapshot on real interpreters, original vs restored vs model; TLC-enumerated snapshot corruption cases",
+        text="Every reachable quiescent state of the TLC model is a crash/resume point and every outgoing state-changing edge a continuation: the real interpreter is snapshotted there (valid JSON), restored with from_snapshot (+start on the async engine), and the same step is performed on original and restored interpreter, which must agree with each other (configuration, history, context, status, output, error flag, ordered actions); re-snapshotting reproduces the snapshot and an earlier snapshot is unaffected by later execution. spec/SnapCases.tla enumerates every single-point corruption with the demanded verdict; each is applied to the real from_snapshot on both engines.",
+        design="DESIGN.md section 8 C12",
+        note="Trusted: TLC, exporter, recorder. Child actors in snapshots are not covered by this check. Pending timers / in-flight services are excepted by the property."),
+    "C20": dict(
+        technique="TLC model checking with a descriptor order defined independently of the implementation-shaped matcher (specificity ranks), over a family of key sets x event types incl. synthetic events and null transitions; edge replay + trace validation",
+        text="Prop C20 computes, for every observed selection, the nominee of each active leaf using its own specificity order (exact, partial by decreasing prefix length, wildcard; synthetic done./error./after./xstate. types exact only; a null transition consumes the event at that state) and requires the selection to equal it. Family E: child/parent/root key subsets from a universe of exact, partial, wildcard, look-alike and synthetic keys with guards and null entries; every event type from every reachable state and guard valuation.",
+        design="DESIGN.md section 8 C20"),
     "C10": dict(
         technique="TLC model checking + edge replay + trace validation; completions counted as rising edges of in-final along the configuration reconstructed from entry/exit witnesses of each step",
         text="Prop C10 (spec/SCProps.tla) checks on every explored/observed step: done.state events are raised exactly for completions (literal reading as lower bound, the engine's recursive reading as upper bound), a parallel state's onDone is never taken while a region is not final, a top-level final state sets status done exactly once with the right output, nothing runs for events dequeued after completion, and sends to a done machine change nothing. Families D (completion nests), R (reactions, events queued behind completion), T.",
